@@ -129,6 +129,9 @@ pub fn cmd_version20(a: &Args) {
 			sink.report(&viol("display_parse", &format!("major:{}", maj), "mismatch", b), &|| json!({"major": maj}));
 		}
 	});
+	// (3)-(5) run twice: without and with a logger installed at trace level (log arguments evaluated)
+	for logging_pass in [false, true] {
+	crate::set_logging(logging_pass);
 	// (3) the model's strings and grid
 	if let Some(inp) = a.get("in") {
 		for path in inp.split(',') {
@@ -196,7 +199,7 @@ pub fn cmd_version20(a: &Args) {
 		}
 	}
 	// (4b) long strings with multi-byte characters at every offset (error paths that quote or slice the input)
-	for k in 0..48usize {
+	for k in (0..48usize).chain(180..300) {
 		for tail in ["\u{e9}\u{e9}\u{e9}\u{e9}\u{e9}\u{e9}\u{e9}\u{e9}\u{e9}\u{e9}", "\u{30d7}\u{30d7}\u{30d7}\u{30d7}\u{30d7}\u{30d7}", "\u{1F600}\u{1F600}\u{1F600}\u{1F600}"] {
 			for dots in [0usize, 1, 2, 3, 4] {
 				let mut s0: String = "a".repeat(k);
@@ -244,6 +247,8 @@ pub fn cmd_version20(a: &Args) {
 			}
 		}
 	}
+	}
+	crate::set_logging(false);
 	sink.summary(json!({}));
 }
 
@@ -634,8 +639,10 @@ pub fn cmd_sjis(a: &Args) {
 			let mut r = crate::util::Rng::keyed(seed, idx as u64, *width as u64);
 			if field.len() < *width {
 				field.push(0);
+				// (every third field: stale ASCII text and further NULs after the first NUL; otherwise any bytes)
+				let ascii_pad = (idx + wi) % 3 == 0;
 				while field.len() < *width {
-					field.push(r.byte());
+					field.push(if ascii_pad { *r.pick(&[0x41u8, 0x7A, 0x20, 0x00, 0x31, 0x7E]) } else { r.byte() });
 				}
 			}
 			let cut: Vec<u8> = field.iter().cloned().take_while(|b| *b != 0).collect();
@@ -678,8 +685,13 @@ pub fn cmd_sjis(a: &Args) {
 				f.push(b0 as u8);
 			}
 			f.push(0);
-			f.push(0xFE);
-			f.push(0x41);
+			// (stale ASCII text and a second NUL after the first NUL, or bytes that are never valid)
+			if (a0 + b0) % 2 == 0 {
+				f.extend_from_slice(&[0x43, 0x44, 0x00, 0x45]);
+			} else {
+				f.push(0xFE);
+				f.push(0x41);
+			}
 			let cut: Vec<u8> = f.iter().cloned().take_while(|b| *b != 0).collect();
 			let structurally_ok = predict(&cut);
 			sink.count(0xC19_0000 + (a0 as u64) << 9 | b0 as u64, !structurally_ok);
